@@ -50,3 +50,16 @@ Fixpoint headers_of (ds : list sdisk) (k : nat) : list disk :=
 Definition complete_set (files : list disk) : Prop :=
   NoDup (map d_num files) /\
   forall d, In d files -> (1 <= d_num d <= N.of_nat (length files))%N.
+
+(** A consistent disk set (what a dump tool writes): every file carries the
+    same block size, system id, disk-set id and time stamp; disk #1 announces
+    as many disks as there are files and its volume table lists the volume id
+    of every disk's partition header. *)
+Definition consistent_set (hs : list hdr) : Prop :=
+  complete_set (map disk_of hs) /\
+  exists bs sy se ti table,
+    length table = length hs /\
+    forall h, In h hs ->
+      h_bs h = bs /\ h_sys h = sy /\ h_set h = se /\ h_time h = ti /\
+      nth_error table (N.to_nat (h_num h - 1)) = Some (h_vol h) /\
+      (h_num h = 1%N -> h_disks h = N.of_nat (length hs) /\ h_table h = table).
